@@ -73,6 +73,7 @@ type c03WalletObs struct {
 	FundAddr   string   // address of the funding request
 	FundAmount uint64
 	Funded     *wire.MsgTx // the unsigned funded transaction handed to the node
+	Final      *wire.MsgTx // LND: the finalized transaction the wallet returned (its id differs from Funded's when an input needs a scriptSig)
 	Prepared   int
 }
 
@@ -389,6 +390,7 @@ func (f *c03LndWalletKit) FinalizePsbt(ctx context.Context, in *walletrpc.Finali
 	if w.cfg.NestedInput && len(s.TxIn) > 0 {
 		s.TxIn[0].SignatureScript = append([]byte{0x16, 0x00, 0x14}, bytes.Repeat([]byte{0x5a}, 20)...)
 	}
+	w.obs.Final = s
 	for i := range p.Inputs {
 		var wb bytes.Buffer
 		psbtWriteWitness(&wb, s.TxIn[i].Witness)
